@@ -64,6 +64,9 @@ func (u *User) init() error {
 		}
 	}
 
+	// 每次都从权限字串重建匹配器：更新用户（CopyFrom）时不能保留旧权限的匹配器
+	u.pushMatchers = nil
+	u.pullMatchers = nil
 	initMatchers(u.PushAccess, &u.pushMatchers)
 	initMatchers(u.PullAccess, &u.pullMatchers)
 	return nil
